@@ -15,6 +15,7 @@ import TemplVerif.Drive.C13
 import TemplVerif.Drive.C12
 import TemplVerif.Drive.C16
 import TemplVerif.Drive.C14
+import TemplVerif.Drive.C15
 import Std.Data.HashMap
 open TemplVerif TemplVerif.Drive
 
@@ -34,6 +35,7 @@ def dispatch (ws : List String) : Verdict :=
   | "C12" :: rest => C12.handle rest
   | "C16" :: rest => C16.handle rest
   | "C14" :: rest => C14.handle rest
+  | "C15" :: rest => C15.handle rest
   | "C06" :: rest => C0607.handleC06 rest
   | "C07" :: rest => C0607.handleC07 rest
   | "C08" :: rest => C0809.handleC08 rest
